@@ -280,7 +280,7 @@ def _property(p, roots):
     d.update({'name': p.name, 'type': _type(p.type), 'readable': bool(p.readable), 'writable': bool(p.writable),
               'construct': bool(p.construct), 'construct_only': bool(p.construct_only),
               'transfer': p.transfer or None, 'setter': p.setter or None, 'getter': p.getter or None,
-              'default_value': p.default_value or None})
+              'default_value': p.default_value})      # '' (present, empty) is not None (absent)
     return d
 
 
